@@ -444,8 +444,13 @@ class Harmonic(BaseScoring):
     np.ndarray
       A (1, M) array of scores where the element at (0, j) indicates the score for alternative j.
     """
-    scores_by_voter = 1 / profile.view(np.ndarray)
-    return super().score(scores_by_voter)
+    ranks = profile.view(np.ndarray)
+    m = ranks.shape[1]
+    # Count how often each alternative is ranked r-th and weight the counts by 1 / r.
+    # Summing 1 / rank voter by voter makes the floating point result depend on the
+    # order of the voters, so that alternatives with identical ranks could fail to tie.
+    counts_by_rank = np.array([np.sum(ranks == r, axis=0) for r in range(1, m + 1)])
+    return super().score(counts_by_rank / np.arange(1, m + 1).reshape(m, 1))
 
   def swf(self, profile: CompleteProfile) -> np.ndarray:
     """
